@@ -1,0 +1,28 @@
+//go:build verif
+
+package httpflv
+
+// Contracts for pkg/httpflv (C11). Checked by /verif/govc; see /verif/DESIGN.md §2.2.
+
+//@ pure be24(b []byte, i int) uint32 = uint32(b[i])<<16 | uint32(b[i+1])<<8 | uint32(b[i+2])
+//@ pure be32(b []byte, i int) uint32 = uint32(b[i])<<24 | uint32(b[i+1])<<16 | uint32(b[i+2])<<8 | uint32(b[i+3])
+
+//@ func PackHttpflvTag
+//@   props C11
+//@   requires len(in) < 1<<24
+//@   ensures [C11.len]    len(result) == 11 + len(in) + 4
+//@   ensures [C11.type]   result[0] == t
+//@   ensures [C11.size]   be24(result, 1) == uint32(len(in))
+//@   ensures [C11.ts]     be24(result, 4) == timestamp & 0xFFFFFF && result[7] == uint8(timestamp >> 24)
+//@   ensures [C11.sid]    result[8] == 0 && result[9] == 0 && result[10] == 0
+//@   ensures [C11.body]   forall i in [0, len(in)) :: result[11+i] == in[i]
+//@   ensures [C11.prev]   be32(result, 11+len(in)) == uint32(11 + len(in))
+//@   ensures [C11.fresh]  fresh(result)
+//@ end
+
+//@ func parseTagHeader
+//@   props C11
+//@   requires len(rawHeader) >= 11
+//@   ensures [C11.parse] result.Type == rawHeader[0] && result.DataSize == be24(rawHeader, 1)
+//@   ensures [C11.parse.ts] result.Timestamp == uint32(rawHeader[7])<<24 | be24(rawHeader, 4) && result.StreamId == 0
+//@ end
